@@ -9,6 +9,23 @@ NOTE_COMMON = ("Trusted: Lean 4.33 kernel; axioms ⊆ {propext, Classical.choice
                "implementation by differential execution (sampled), not by proof. ")
 
 CLAIMED = {
+ "C13": dict(
+   text=("Lean theorems over exact rationals: Size.as_percentage_of returns exactly px*100/dim, em*16, pt*4/3, cells/32|15 for every value and dimension "
+         "(relativize_exact), refuses with the relativization error when the dimension is missing (relativize_refuses), always yields a percentage "
+         "(relativize_unit, relativized_origin_is_percent); Layout.fit_to_screen: right edge <= 90 and bottom <= 95 for every fitted layout (fit_edges_le), missing extent reaches "
+         "exactly the edges, fitting extent unchanged; the constants 16, 72/96, 100, 32x15, 90/95 are regenerated from geometry.py and pinned. "
+         "Correspondence on the unit x value x axis x dimension grid and on random layouts through BaseWriter._relativize_and_fit_to_screen."),
+   ref="§3 C13", technique="Lean 4 proof (rational arithmetic, linarith/ring) + translator-pinned constants + differential correspondence",
+   note=NOTE_COMMON + "Python floats are modelled as exact rationals (tolerance 1e-11 relative in the comparison). Which layouts each writer passes through relativization is checked by execution on writer output, not by a theorem."),
+ "C18": dict(
+   text=("Lean theorems: the __eq__ chains of Size/Point/Stretch/Padding/Alignment/Layout are true exactly when all geometric components are equal "
+         "(webvtt_positioning excluded), equal values hash equally for ANY component hash functions, Size.from_string accepts exactly the language "
+         "digits+[.digits+]unit | 0 (both directions, for every string; the `$`-before-final-newline deviation of the pinned regex is visible in the statement), "
+         "rejections are syntax errors, padding shorthands of 1-4 sizes expand in TTML order and print in TTML order. Correspondence: all ordered pairs of a "
+         "per-type grid, every string of length <=4 (quick) / <=5 (thorough) over the 14-symbol alphabet, print/re-parse grid incl. 2-decimal ties, receiver snapshots."),
+   ref="§3 C18", technique="Lean 4 proof (structural, string induction for the grammar) + pinned regex text + exhaustive short-string correspondence",
+   note=NOTE_COMMON + "Real hash() is only checked for 'equal implies equal hash' by execution; float printing is compared against the exact-rational model fed with the float's exact binary value; print/re-parse round trip is checked by execution, not proved."),
+
  "C19": dict(
    text=("Lean theorems for every caption list (any length, any rational times, opaque nodes): the accumulator loop of merge_concurrent_captions "
          "equals 'one caption per maximal run of equal (start,end), nodes joined by breaks' (merge_runs), a singleton run is unchanged "
